@@ -25,6 +25,8 @@
 (* Mode "rows"   : every row up to MaxCols tokens            (pattern R)   *)
 (* Mode "objs"   : every qualified-name shape, round trip    (pattern R)   *)
 (* Mode "update" : every fault configuration                 (pattern S)   *)
+(* Mode "roots"  : every history of up to 5 steps (add a root, read the     *)
+(*                 urls, write the inventory) of a system that grows       *)
 (* Mode "urls"   : every name path of depth <= 3 whose components may repeat  *)
 (*                 the root's own name, in projects with one / two roots:  *)
 (*                 the page that documents it                              *)
@@ -158,7 +160,9 @@ RoundTripSphinx(dups) ==
 \* ----------------------------------------------------------- SphinxInventory.update
 UrlKinds    == {"ok", "noslash"}
 FetchKinds  == {"ok", "none", "empty", "raises"}         \* IntersphinxCache.get turns an exception into None
-HeaderKinds == {"normal", "missing", "onlycomments", "nonewline"}
+\* "banner" = a long run of comment lines (1 500) before the payload, "manycomments" = as many comment lines and nothing
+\* else: the header is skipped by a loop, its length does not matter
+HeaderKinds == {"normal", "missing", "onlycomments", "nonewline", "banner", "manycomments"}
 ZipKinds    == {"ok", "notzlib", "truncated"}
 TextKinds   == {"ok", "badutf8"}
 LineKinds   == {"py", "std", "pyx", "noint", "priolast", "nodisplay", "blank"}
@@ -185,6 +189,9 @@ Init ==
          /\ dups = <<>> /\ cfg = NoCfg /\ pc = "done"
       \/ /\ Mode = "objs" /\ row = <<>> /\ cfg = NoCfg /\ pc = "done"
          /\ dups \in {d \in (SeqsUpTo(BOOLEAN, MaxDepth) \ {<<>>}) : ~d[1]}          \* a module is never a duplicate
+      \/ /\ Mode = "roots" /\ row = <<>> /\ dups = <<>> /\ pc = "roots"
+         /\ cfg \in {s \in (SeqsUpTo({"A", "T", "W"}, 5) \ {<<>>}) :
+                        /\ s[1] = "A" /\ s[Len(s)] = "W" /\ Cardinality({i \in DOMAIN s : s[i] = "A"}) <= 3}
       \/ /\ Mode = "urls" /\ row = <<>> /\ dups = <<>> /\ pc = "done"
          /\ cfg \in [names : {s \in (SeqsUpTo({"r", "x"}, 3) \ {<<>>}) : s[1] = "r"}, roots : 1..2]
       \/ /\ Mode = "writes" /\ row = <<>> /\ dups = <<>> /\ pc = "writes"
@@ -199,6 +206,7 @@ Init ==
          \* one fault at a time in the stages before the lines; any mixture of lines
          /\ Cardinality({s \in {"url", "fetch", "header", "zip", "text"} :
                            cfg[s] \notin {"ok", "normal"}}) <= 1
+         /\ (cfg.header \in {"banner", "manycomments"} => Len(cfg.lines) <= 2)
 
 Keep == UNCHANGED <<row, dups, cfg, answers>>
 Fail(msgs) == /\ errors' = errors + msgs /\ pc' = "done" /\ UNCHANGED <<li, links>> /\ Keep
@@ -210,7 +218,7 @@ Fetch   == pc = "fetch"   /\ IF cfg.fetch # "ok" THEN Fail(1) ELSE Go("payload")
 \* _getPayload: comment lines are dropped; whatever is left goes to zlib (:84-94)
 Payload == pc = "payload" /\ Go("inflate")
 \* zlib.decompress (:95-101): nothing left after the comments, not zlib data, truncated stream -> zlib.error
-Inflate == pc = "inflate" /\ IF cfg.zip # "ok" \/ cfg.header \in {"onlycomments", "nonewline"} THEN Fail(1) ELSE Go("decode")
+Inflate == pc = "inflate" /\ IF cfg.zip # "ok" \/ cfg.header \in {"onlycomments", "nonewline", "manycomments"} THEN Fail(1) ELSE Go("decode")
 \* decompressed.decode('utf-8') (:102-108)
 Decode  == pc = "decode"  /\ IF cfg.text = "badutf8" THEN Fail(1) ELSE Go("lines")
 \* _parseInventory (:118-131), one line per step
@@ -250,11 +258,21 @@ HistStep == /\ pc = "hist" /\ UNCHANGED <<row, dups, cfg>>
 WriteStep == /\ pc = "writes" /\ UNCHANGED <<row, dups, cfg, errors, links>>
              /\ IF li > Len(cfg) THEN pc' = "done" /\ UNCHANGED <<li, answers>>
                 ELSE li' = li + 1 /\ pc' = pc /\ answers' = Append(answers, cfg[li].p)
-Next == Rsplit \/ Fetch \/ Payload \/ Inflate \/ Decode \/ Lines \/ FetchNext \/ HistStep \/ WriteStep
+\* ---- a system that grows: A = a root is added and analysed (SystemBuilder.addModule + buildModules), T = the urls of
+\* the objects are read (rendering a docstring that links to them does it), W = the inventory is written and read
+\* back.  Documentable.url (:233-249) is computed from the roots the system has AT THAT MOMENT; nothing is remembered:
+\* answers[k] = the number of roots the k-th written inventory reflects (links = the roots so far).
+RootStep == /\ pc = "roots" /\ UNCHANGED <<row, dups, cfg, errors>>
+            /\ IF li > Len(cfg) THEN pc' = "done" /\ UNCHANGED <<li, links, answers>>
+               ELSE /\ li' = li + 1 /\ pc' = pc
+                    /\ CASE cfg[li] = "A" -> links' = links \cup {Cardinality(links) + 1} /\ UNCHANGED answers
+                         [] cfg[li] = "T" -> UNCHANGED <<links, answers>>
+                         [] cfg[li] = "W" -> answers' = Append(answers, Cardinality(links)) /\ UNCHANGED links
+Next == Rsplit \/ Fetch \/ Payload \/ Inflate \/ Decode \/ Lines \/ FetchNext \/ HistStep \/ WriteStep \/ RootStep
 Spec == Init /\ [][Next]_vars
 
 \* the contract of update (from the property statement)
-StageFault == cfg.url # "ok" \/ cfg.fetch # "ok" \/ cfg.header \in {"onlycomments", "nonewline"} \/ cfg.zip # "ok" \/ cfg.text # "ok"
+StageFault == cfg.url # "ok" \/ cfg.fetch # "ok" \/ cfg.header \in {"onlycomments", "nonewline", "manycomments"} \/ cfg.zip # "ok" \/ cfg.text # "ok"
 UsableLines == {i \in DOMAIN cfg.lines : Usable(LineRow(cfg.lines[i]))}
 BadLines    == {i \in DOMAIN cfg.lines : RefParse(LineRow(cfg.lines[i])).kind = "nomatch"}
 NeverRaises  == pc # "raised"
@@ -276,6 +294,11 @@ LookupsFollowLoads == (Mode = "hist" /\ pc = "done") =>
                          /\ Len(answers) = Cardinality(LookupPositions)
                          /\ \A k \in DOMAIN answers : answers[k] = Loaded(NthLookup(k), NameOf(cfg[NthLookup(k)]))
 \* every file written reads back as exactly the visible documented objects of the project it was written for
+\* every inventory written points where RefPage says for the roots present when it was written
+WrittenForCurrentRoots == (Mode = "roots" /\ pc = "done") =>
+   \A k \in DOMAIN answers :
+      LET wpos == CHOOSE i \in DOMAIN cfg : cfg[i] = "W" /\ Cardinality({j \in 1..i : cfg[j] = "W"}) = k
+      IN answers[k] = Cardinality({j \in 1..wpos : cfg[j] = "A"})
 EachFileComplete == (Mode = "writes" /\ pc = "done") =>
                        /\ Len(answers) = Len(cfg) /\ \A i \in DOMAIN cfg : answers[i] = cfg[i].p
 EachGoodResolves == (Mode = "multi" /\ pc = "done") =>
@@ -291,6 +314,7 @@ DesignKnown ==
    /\ EachGoodResolves
    /\ LookupsFollowLoads
    /\ EachFileComplete
+   /\ WrittenForCurrentRoots
    /\ (Mode = "urls" => PagesDistinct)
 
 Emit ==
@@ -300,6 +324,8 @@ Emit ==
      [] Mode = "objs" ->
           PrintT(ToJson([dups |-> dups, row |-> WriteLine(dups), impl |-> ImplParse(WriteLine(dups)),
                          roundtrip |-> RoundTrip(dups), sphinx |-> RoundTripSphinx(dups)]))
+     [] Mode = "roots" ->
+          (Terminal => PrintT(ToJson([cfg |-> cfg, answers |-> answers])))
      [] Mode = "urls" ->
           PrintT(ToJson([names |-> cfg.names, roots |-> cfg.roots, page |-> RefPage(cfg.names, cfg.roots)]))
      [] Mode = "writes" ->
